@@ -13,6 +13,7 @@ import SwcVerif.Model.Resample
 import SwcVerif.Model.Mst
 import SwcVerif.Model.Views
 import SwcVerif.Model.Images
+import SwcVerif.Model.Features
 
 def dispatch (op : String) (args : List String) : String :=
   match op with
@@ -36,6 +37,7 @@ def dispatch (op : String) (args : List String) : String :=
   | "mst" => Mst.handle args
   | "views" => Views.handle args
   | "imgaxes" | "imggrid" => Img.handle op args
+  | "feat" => Feat.handle args
   | "swcline" => SwcText.handleLine args
   | "swcread" => SwcText.handleRead args
   | "swcwrite" => SwcText.handleWrite args
